@@ -50,12 +50,13 @@ ASSUMPTIONS = ["the application handles messages in the canonical form `enforce(
                "corrupt messages are limited to: wrong CheckSum, missing mandatory header/body field, no MsgSeqNum at all, a tag "
                "twice, unknown message type; no repeating groups, no unknown or misplaced tags (C04/C05), values < 2048 bytes"]
 RULE = ("histories for both roles, file/memory/no persister, enforce_compids on/off, silent_disconnect on/off, receive "
-        "number argument: a Logon (in sequence / low / high / PossDup / reset) and then 1..9 inbound probes aimed at the "
+        "number argument: a Logon (in sequence / low / high / PossDup / ResetSeqNumFlag absent, Y, N, also after a restart on "
+        "the files with carried-over numbers) and then 1..9 inbound probes aimed at the "
         "expected number the generator tracks: equal, lower (PossDup absent / Y / N, OrigSendingTime before / equal / after "
         "SendingTime / absent), higher by 1..3, wrong Sender/TargetCompID, bad checksum, missing mandatory body or header "
         "field, a tag twice (also a second MsgSeqNum), unknown message type, header/body fields in shuffled order, no '34=' at "
-        "all, header values that contain '34=<n>' before or after the real field (n = expected, lower, "
-        "higher), all message types (application D/F/8/j, Heartbeat, TestRequest, ResendRequest, Reject, SequenceReset, "
+        "all, header values that contain '34=<n>' before or after the real field and data fields (SecureData, XmlData behind "
+        "their Length fields) whose content contains SOH '34=<n>' before or after it (n = expected, lower, higher), all message types (application D/F/8/j, Heartbeat, TestRequest, ResendRequest, Reject, SequenceReset, "
         "Logout, Logon); the states are reached by the history itself: before logon, logon phase, continuous, "
         "resend_request_sent (after a gap), test_request_sent (after a silent timer period), after a Logout / a fatal "
         "violation / Session::stop / a peer close; some operations carry two messages. non-trivial = at least two inbound messages were "
@@ -69,8 +70,14 @@ SOH = "\x01"
 def _probe_lines():
     t = S.ts(S.T0)
     no34 = rawmsg([(35, "0"), (49, "SRV"), (56, "CLI"), (52, t)])
-    unk = rawmsg([(35, "ZZ"), (49, "SRV"), (56, "CLI"), (34, 1), (52, t)])
+    unk = rawmsg([(35, unknown_types()[0]), (49, "SRV"), (56, "CLI"), (34, 1), (52, t)])
     return ["START I none asa=0|IN " + no34.hex(), "START I none asa=0|IN " + unk.hex()]
+
+
+def unknown_types():
+    """Message types the schema of the harness does not define."""
+    known = set(_meta()[1])
+    return [t for t in ("ZY", "U1", "z", "QQ", "zz", "0Z", "Zq") if t.encode() not in known][:3]
 
 
 def _reject_fileline(out):
@@ -90,17 +97,26 @@ def build(tier):
     exe = built["impl"][0]
     flf, flt = exe + ".c19fl", exe + ".c19flt"
     if not (os.path.exists(flf) and os.path.exists(flt)):
-        # the texts of the InvalidMessage thrown by Session::process (no "34=") and by Message::factory (unknown
+        # the texts of the InvalidMessage thrown by Session::process (no SOH "34=") and by Message::factory (unknown
         # message type) carry __FILE__:__LINE__ of the tree under test: take them from the real code (the Rejects
-        # that answer such messages).  A tree that no longer rejects them leaves the text empty and the
-        # correspondence run shows the difference.
-        outs = core.run_lines(built["impl"], _probe_lines(), per_case_timeout=60)
-        for path, out in ((flf, outs[0]), (flt, outs[1])):
+        # that answer such messages).  Only a successful probe is cached; a tree that no longer rejects such
+        # messages leaves the text empty for this run and the correspondence run shows the difference.
+        for attempt in range(3):
+            outs = core.run_lines(built["impl"], _probe_lines(), per_case_timeout=120)
+            fls = [_reject_fileline(o) for o in outs]
+            if all(fls):
+                break
+        paths = []
+        for path, fl in ((flf, fls[0]), (flt, fls[1])):
+            if not fl:
+                path = path + ".unprobed%d" % os.getpid()
             tmp = path + ".tmp%d" % os.getpid()
-            open(tmp, "w").write(_reject_fileline(out) or "")
+            open(tmp, "w").write(fl or "")
             os.rename(tmp, path)
+            paths.append(path)
+        flf, flt = paths
     # the Codec group's metadata dump of the same schema (the model's decoder = coq/Codec's Message::factory)
-    cmeta = codecgen.build_codec(("utest",))["driver_args"][0].split("=", 1)[1]
+    cmeta = codecgen.build_codec(("utest2c",))["driver_args"][0].split("=", 1)[1]     # the schema _sess.build_sess uses
     built["driver_args"] = built["driver_args"] + [flf, cmeta, flt]
     return built
 
@@ -207,7 +223,7 @@ def probe(g, kind=None):
     E = g.exp
     alive = g.st in ("cont", "resend", "test")
     kinds = ["ok"] * 14 + ["high"] * 4 + ["low"] * 2 + ["lowpd"] * 4 + ["eqpd", "comp", "comp", "chk", "chk", "missb",
-             "missh", "no34", "v34", "v34", "v34", "v34", "v34after", "seqreset", "reject", "logout", "logon", "two",
+             "missh", "no34", "v34", "v34", "d34", "d34", "d34", "v34after", "seqreset", "reject", "logout", "logon", "two",
              "dup", "dup", "unkmt", "shuffle", "shuffle"]
     k = kind or rng.choice(kinds)
     t = rng.choice(ANY if rng.random() < 0.5 else APP)
@@ -293,7 +309,7 @@ def probe(g, kind=None):
         g.feed(g.msg(t, E, omit=(34,)))
         g.exp += 1
     elif k == "v34":
-        # a header value containing "34=<n>" BEFORE the MsgSeqNum field
+        # a header value containing "34=<n>" BEFORE the MsgSeqNum field (F24 before its repair: a control now)
         n = rng.choice([E, E, E, E + 1, E + 5, max(1, E - 1), 0])
         real = rng.choice([E, E + 1, E + 4, E + 4, max(1, E - 1), max(1, E - 1), E])
         tag = rng.choice(HDR_VALUE_TAGS)
@@ -301,12 +317,39 @@ def probe(g, kind=None):
         omit = (34,) if rng.random() < 0.12 else ()
         pd = "Y" if rng.random() < 0.15 else None
         g.feed(g.msg(t, real, pre=[(tag, v)], omit=omit, possdup=pd))
+        # (since the repair of F24 the session gates on `real`; without the field: no SOH "34=" at all)
         if omit:
             g.exp += 1
         elif alive and t != "3":
-            if n == E or (n < E and pd):
+            if real == E or (real < E and pd):
                 g.exp += 1
-            elif n > E and g.st == "cont":
+            elif real > E and g.st == "cont":
+                g.exp += 1
+                g.st = "resend"
+            else:
+                g.st = "dead"
+        else:
+            processed()
+    elif k == "d34":
+        # what still escapes: the CONTENT of a data field (behind its Length field) in front of MsgSeqNum contains
+        # SOH "34=<n>"; controls: the pair behind MsgSeqNum, content with SOH but without "34="
+        n = rng.choice([E, E, E, E + 1, E + 5, max(1, E - 1)])
+        real = rng.choice([E, E + 1, E + 4, E + 4, max(1, E - 1), max(1, E - 1), E])
+        ltag, dtag = rng.choice([(90, 91), (212, 213)])
+        mode = rng.randrange(5)
+        content = rng.choice(["X", "", "ab"]) + "\x01" + ("34=%d" % n if mode != 4 else "zz=1") + rng.choice(["", "\x01q"])
+        pair = [(ltag, len(content)), (dtag, content)]
+        pd = "Y" if rng.random() < 0.15 else None
+        if mode == 3:
+            g.feed(g.msg(t, real, post=pair, possdup=pd))
+            gate = real
+        else:
+            g.feed(g.msg(t, real, pre=pair, possdup=pd))
+            gate = n if mode != 4 else real
+        if alive and t != "3":
+            if gate == E or (gate < E and pd):
+                g.exp += 1
+            elif gate > E and g.st == "cont":
                 g.exp += 1
                 g.st = "resend"
             else:
@@ -360,7 +403,7 @@ def probe(g, kind=None):
             g.feed(g.msg("D", seq, body=b + [(58, "x"), (58, "y")]))
         g.exp += 1
     elif k == "unkmt":
-        g.feed(g.msg(rng.choice(["ZZ", "z", "U1"]), rng.choice([E, E + 1]), body=[(58, "x")]))
+        g.feed(g.msg(rng.choice(unknown_types()), rng.choice([E, E + 1]), body=[(58, "x")]))
         g.exp += 1
     elif k == "shuffle":
         # the same in-sequence message with header and body fields in another (legal) order
@@ -406,10 +449,11 @@ def history(rng, role=None, persist=None, nprobes=None, force=None, **over):
             g.feed(g.msg("D", E, bad_chk=True))
     # ---- the Logon
     r = rng.random()
-    reset = role == "A" and rng.random() < 0.15
-    if reset:
+    # ResetSeqNumFlag: absent / Y (the expected number becomes 1) / an explicit N (NOT a reset: the value counts)
+    flag = rng.choice([None] * 6 + ["Y", "N", "N"]) if role == "A" else rng.choice([None] * 8 + ["N"])
+    if flag == "Y":
         E = 1
-    body = [(98, 0), (108, g.hb)] + ([(141, "Y")] if reset else [])
+    body = [(98, 0), (108, g.hb)] + ([(141, flag)] if flag else [])
     if r < 0.70:
         g.feed(g.msg("A", E, body=body))
         ok = True
@@ -454,10 +498,19 @@ def history(rng, role=None, persist=None, nprobes=None, force=None, **over):
         elif x < 0.145:
             g.ops.append(rng.choice(["STOP", "PEERCLOSE"]))
             g.st = "dead"
-        elif x < 0.16 and persist == "file":
+        elif x < 0.17 and persist == "file":
+            # numbers carried over on the files: the Logon after the restart with / without ResetSeqNumFlag
             g.restart()
             g.st = "pre"
-            probe(g, "ok")
+            fl2 = rng.choice([None, None, "Y", "N", "N"]) if role == "A" else None
+            E2 = 1 if fl2 == "Y" else (kw.get("rs") or g.exp)
+            seq = rng.choice([E2, E2, 1, g.exp, E2 + 1])
+            g.feed(g.msg("A", seq, body=[(98, 0), (108, g.hb)] + ([(141, fl2)] if fl2 else [])))
+            if seq == E2:
+                g.st = "cont"
+                g.exp = E2 + 1
+            else:
+                g.st = "dead"
         else:
             probe(g)
     return g.line()
@@ -468,7 +521,7 @@ def gen_cases(rng, tier):
     thorough = tier == "thorough"
     # 1. systematic: every probe kind as the last operation after a short prefix, in every state the prefix reaches
     kinds = ["ok", "high", "low", "lowpd", "eqpd", "comp", "chk", "missb", "missh", "no34", "v34", "v34after", "seqreset",
-             "reject", "logout", "logon", "two", "dup", "unkmt", "shuffle"]
+             "reject", "logout", "logon", "two", "dup", "unkmt", "shuffle", "d34"]
     reps = 6 if thorough else 2
     for kind in kinds:
         for role in "IA":
@@ -491,6 +544,28 @@ def gen_cases(rng, tier):
                     if rng.random() < 0.5:
                         probe(g, "ok")
                     cs.append(Case(g.line(), "sys-%s" % kind))
+    # 1b. acceptor Logons with ResetSeqNumFlag absent / Y / N against carried-over expected numbers (receive number
+    #     argument of start; control record on the files across a restart), then messages at 2 and at expected
+    for flag in (None, "Y", "N"):
+        for carried in ("rs", "file", "none"):
+            for lseq in ("one", "exp", "high"):
+                for _ in range(3 if thorough else 1):
+                    rs = rng.randint(3, 9) if carried == "rs" else None
+                    g = G(rng, "A", "file" if carried == "file" else rng.choice(["mem", "none"]), hb=30, asa=0,
+                          ec=1, sd=1 if rng.random() < 0.1 else 0, rs=rs)
+                    if carried == "file":
+                        g.feed(g.msg("A", 1))
+                        g.st, g.exp = "cont", 2
+                        for _ in range(rng.randint(1, 4)):
+                            probe(g, "ok")
+                        g.restart()
+                        g.st = "pre"
+                    E = 1 if flag == "Y" else (rs or g.exp)
+                    seq = {"one": 1, "exp": E, "high": E + 2}[lseq]
+                    g.feed(g.msg("A", seq, body=[(98, 0), (108, 30)] + ([(141, flag)] if flag else [])))
+                    g.feed(g.msg("D", 2))
+                    g.feed(g.msg("D", E + 1))
+                    cs.append(Case(g.line(), "sys-logon-flag"))
     # 2. random histories
     n_rand = 7000 if thorough else 1500
     for _ in range(n_rand):
@@ -533,10 +608,26 @@ def _split_frames(buf):
 
 
 def _toks(raw):
-    out = []
-    for t in raw.split(b"\x01")[:-1]:
-        k, _, v = t.partition(b"=")
+    """tag=value tokens; the field after a Length field with value n takes the next n bytes (FIX data fields)."""
+    lens = _meta()[2]
+    out, p, pend = [], 0, None
+    while p < len(raw):
+        if pend is not None:
+            eq = raw.find(b"=", p)
+            if (eq >= 0 and b"\x01" not in raw[p:eq] and eq + 1 + pend < len(raw)
+                    and raw[eq + 1 + pend:eq + 2 + pend] == b"\x01"):
+                out.append((raw[p:eq], raw[eq + 1:eq + 1 + pend]))
+                p, pend = eq + 2 + pend, None
+                continue
+        pend = None
+        e = raw.find(b"\x01", p)
+        if e < 0:
+            break
+        k, _, v = raw[p:e].partition(b"=")
         out.append((k, v))
+        p = e + 1
+        if k.isdigit() and int(k) in lens and v.isdigit():
+            pend = int(v)
     return out
 
 
@@ -549,11 +640,12 @@ def _get(toks, tag):
 
 
 def _raw_seq(raw):
-    i = raw.find(b"34=")
+    """What Session::process gates on: the number after the first SOH "34=" (since /repo 57dfe06)."""
+    i = raw.find(b"\x0134=")
     if i < 0:
         return None
-    j = raw.find(b"\x01", i)
-    v = raw[i + 3:j] if j >= 0 else b""
+    j = raw.find(b"\x01", i + 1)
+    v = raw[i + 4:j] if j >= 0 else b""
     return int(v) if v.isdigit() else -1
 
 
@@ -601,23 +693,25 @@ def _meta():
     """Mandatory header / body tags per message type, from the harness' metadata dump."""
     global _META
     if _META is None:
-        hdr, body = [], {}
+        hdr, body, lens = [], {}, set()
         for l in open(S.build_sess()["driver_args"][0], errors="replace"):
             w = l.split()
+            if len(w) >= 2 and w[0] == "P":
+                lens.update(int(x.split(":")[0]) for x in w[2:] if x.split(":")[2] == "2")     # type Length
             if len(w) >= 2 and w[0] == "P" and w[1] != "trailer":
                 mand = [x.split(":")[0].encode() for x in w[2:] if x.split(":")[3] == "1"]
                 if w[1] == "header":
                     hdr = mand
                 else:
                     body[w[1].encode()] = mand
-        _META = (hdr, body)
+        _META = (hdr, body, lens)
     return _META
 
 
 def _decodable(raw, toks):
     if len(toks) < 3 or toks[0][0] != b"8" or toks[1][0] != b"9" or toks[2][0] != b"35":
         return False
-    hdr, body = _meta()
+    hdr, body, _ = _meta()
     if toks[2][1] not in body:
         return False
     tags = set(k for k, _ in toks)
@@ -679,7 +773,7 @@ def explain(line, trace, cats=None):
                 st = prev["state"]
                 E = prev["recv"]
                 if not _decodable(raw, toks):
-                    note("undecodable:%s" % ("no34" if b"34=" not in raw else "rejected"))
+                    note("undecodable:%s" % ("no34" if b"\x0134=" not in raw else "rejected"))
                     if dl or not has(b"3"):
                         kinds.append("other")
                 elif F is not None and F.isdigit():
